@@ -232,4 +232,29 @@ IxItemConf(km, ei) == /\ ei.k = "ipfix" /\ ei.hdr.length >= 16 /\ ei.dropped = <
 ItemConf(km, ei) == CASE ei.k \in {"v5", "v7"} -> TRUE [] ei.k = "v9" -> V9ItemConf(km, ei)
                       [] ei.k = "ipfix" -> IxItemConf(km, ei) [] OTHER -> FALSE
 RunConf(km, run) == run.stop = "end" /\ \A i \in 1..Len(run.out) : ItemConf(km, run.out[i])
+-----------------------------------------------------------------------------
+(***************************************************************************)
+(* C14's antecedent: "the buffer ends before the end announced by the      *)
+(* packet's own header", decided from the header fields only (V5/V7 count, *)
+(* IPFIX length, V9 flowset lengths) - no templates, no step functions.    *)
+(* For V9 a cut exactly on a flowset boundary is not a truncation (the     *)
+(* property's quantifier excludes it: the packet is simply shorter).       *)
+(***************************************************************************)
+V9Cut(b, pos) ==
+  LET step(acc, i) ==
+        IF acc.done THEN acc
+        ELSE IF acc.budget = 0 \/ Avail(b, acc.pos) = 0 THEN [acc EXCEPT !.done = TRUE]
+        ELSE IF Avail(b, acc.pos) < 4 \/ Avail(b, acc.pos) < Max2(U16At(b, acc.pos + 2), 4)
+               THEN [acc EXCEPT !.done = TRUE, !.cut = TRUE]
+        ELSE [acc EXCEPT !.pos = acc.pos + Max2(U16At(b, acc.pos + 2), 4), !.budget = acc.budget - 1]
+  IN IF Avail(b, pos) < 20 THEN TRUE
+     ELSE FoldLeft(step, [pos |-> pos + 20, budget |-> U16At(b, pos + 2), done |-> FALSE, cut |-> FALSE],
+                   Range1(Avail(b, pos) \div 4 + 1)).cut
+TruncatedAt(b, pos) ==
+  /\ Avail(b, pos) >= 2
+  /\ LET v == U16At(b, pos) IN
+     CASE v \in {5, 7} -> Avail(b, pos) < 4 \/ Avail(b, pos) < FixedWire(v, U16At(b, pos + 2))
+       [] v = 10       -> Avail(b, pos) < 4 \/ Avail(b, pos) < Max2(U16At(b, pos + 2), 16)
+       [] v = 9        -> V9Cut(b, pos)
+       [] OTHER        -> FALSE
 =============================================================================
